@@ -708,6 +708,8 @@ static int cif_loop_get_names_internal(cif_loop_tp *loop, UChar ***item_names, i
                     }
 
                     FAILURE_HANDLER(name):
+                    /* the statement must not be left in the middle of its execution; ignore any error: */
+                    sqlite3_reset(cif->get_loop_names_stmt);
                     /* release resources and roll back before reporting the failure */
                     LL_FOREACH_SAFE(name_list, next_name, temp_name) {
                         LL_DELETE(name_list, next_name);
